@@ -14,8 +14,8 @@ shutil.copy(os.path.join(src, f"demo_{letter}.py"), os.path.join(dst, "demo.py")
 meta = json.load(open(os.path.join(src, "meta.json")))
 m = meta.get(letter, {})
 out = {"property": prop, "summary": m.get("summary", ""), "needs_to_manifest": m.get("needs_to_manifest", ""),
-       "files": m.get("files", []), "round": 2,
-       "made_by": "independent sub-agent given only the property text and its own worktree of /repo (second round: caches, dtype narrowing, falsy-zero and dropped-sign mechanisms excluded)",
+       "files": m.get("files", []), "round": int(os.environ.get("ROUND", "2")),
+       "made_by": os.environ.get("MADE_BY", "independent sub-agent given only the property text and its own worktree of /repo (second round: caches, dtype narrowing, falsy-zero and dropped-sign mechanisms excluded)"),
        "confirmed_by_me": "scratch worktree at /repo HEAD 3160c20: demo exits 0 without the patch and non-zero with it; baseline suite unchanged (same 9 known failures, 126 passed)",
        "caught_by": caught}
 json.dump(out, open(os.path.join(dst, "meta.json"), "w"), indent=1)
